@@ -49,6 +49,15 @@ theorem C14_bounded {t : Topo} (wf : t.WF) {s sf : State} (hs : Reach t s) (d : 
     potential t sf d + c ≤ potential t s d + g :=
   (runCount_bound wf d ls s sf c g (hs.inv wf) h).1
 
+/-- the bound is explicit: pending upstream messages on the path plus 3 per level -/
+theorem C14_bound_explicit (t : Topo) (s : State) (d : Nat) :
+    potential t s d ≤ sumMap (fun i => (s.outbox i).length + 3) (path t d) := by
+  unfold potential
+  apply sumMap_le0
+  intro i
+  unfold weight b2n
+  split <;> split <;> omega
+
 /-- **shutdown propagates.**  `d` a crashed (or otherwise gone) worker or manager.
 (a) as long as the server still runs, a critical delivery is enabled;
 (b) after `B(s) + growth` critical deliveries - whatever else the schedule did - the server
@@ -105,6 +114,47 @@ theorem C14_client_raises {t : Topo} (wf : t.WF) {s : State} (hs : Reach t s)
         s'.cwait c = false ∧ s'.clog = s.clog ++ [.raised c] ∧ s'.toServer = s.toServer) := by
   have hc : s.copen c = false := (hs.inv wf).clients hr c
   exact ⟨fun hw => blocked_client_raises hw hc, fun hw r hok => entering_client_raises hw hok hc⟩
+
+/-- end to end: a node is gone, the schedule took `B + growth` critical deliveries: now every
+blocked client's `recv` is enabled and its call raises, every client that calls later raises. -/
+theorem C14_clients_unblocked {t : Topo} (wf : t.WF) {s sf : State} (hs : Reach t s) {d : Nat}
+    (hd0 : d ≠ 0) (hdn : d < t.n) (hg : s.gone d = true) (ls : List Label) {c g : Nat}
+    (h : runCount t d s ls = some (sf, c, g)) (hmax : potential t s d + g ≤ c) (cl : Nat) :
+    (sf.cwait cl = true → ∃ s', step t sf (.cwake cl) = some s' ∧ s'.cwait cl = false ∧
+        s'.clog = sf.clog ++ [.raised cl]) ∧
+    (sf.cwait cl = false → ∀ r, okReq r = true → ∃ s', step t sf (.ccall cl r) = some s' ∧
+        s'.clog = sf.clog ++ [.raised cl]) := by
+  have hdone := (C14_shutdown_propagates wf hs hd0 hdn hg ls h).2.1 hmax
+  have hreach : Reach t sf := by
+    obtain ⟨l0, h0⟩ := hs
+    have hrun : run t s ls = some sf := by
+      have : ∀ (ls : List Label) (a : State) (r : State × Nat × Nat),
+          runCount t d a ls = some r → run t a ls = some r.1 := by
+        intro ls
+        induction ls with
+        | nil => intro a r hr; simp only [runCount, Option.some.injEq] at hr; subst hr; rfl
+        | cons x xs ih =>
+          intro a r hr
+          simp only [runCount] at hr
+          simp only [run]
+          cases hx : step t a x with
+          | none => simp [hx] at hr
+          | some a1 =>
+            simp only [hx] at hr ⊢
+            cases hy : runCount t d a1 xs with
+            | none => simp [hy] at hr
+            | some r1 =>
+              simp only [hy, Option.some.injEq] at hr
+              subst hr
+              exact ih a1 r1 hy
+      exact this ls s _ h
+    exact ⟨l0 ++ ls, by rw [run_append l0 ls init s h0]; exact hrun⟩
+  obtain ⟨h1, h2⟩ := C14_client_raises wf hreach hdone.1 cl
+  refine ⟨fun hw => ?_, fun hw r hr => ?_⟩
+  · obtain ⟨s', a, b, _, e⟩ := h1 hw
+    exact ⟨s', a, b, e⟩
+  · obtain ⟨s', a, _, e, _⟩ := h2 hw r hr
+    exact ⟨s', a, e⟩
 
 /-- **a second crash changes nothing**: it keeps the invariant, does not raise the bound of
 the reaction to the first crash, and touches nothing a client or the server's tables can
